@@ -216,6 +216,35 @@ func init() {
 				stat("C18", "same-kid-pairs")
 			}
 		}
+		// ... also for a step that has an env of its own, signed and verified together with a pipeline env that the
+		// step's env partly shadows (repeated: Go walks the env map in a different order each time)
+		{
+			stp := &signature.CommandStepWithInvariants{CommandStep: pipeline.CommandStep{Command: "echo env", Env: map[string]string{"SHADOWED": "step", "OWN": "1"}}, RepositoryURL: "repo"}
+			penv := map[string]string{"SHADOWED": "pipeline", "PIPE_A": "a", "PIPE_B": "b", "PIPE_C": "c"}
+			for _, a := range []jwa.SignatureAlgorithm{jwa.EdDSA, jwa.ES512} {
+				priv, pub, err := jwkutil.NewKeyPair("env-kid", a)
+				if err != nil {
+					continue
+				}
+				k0, _ := priv.Key(0)
+				bad := ""
+				for rep := 0; rep < 25 && bad == ""; rep++ {
+					sg, serr := signature.Sign(context.Background(), k0, stp, signature.WithEnv(penv))
+					if serr != nil {
+						bad = "sign: " + serr.Error()
+						break
+					}
+					if verr := signature.Verify(context.Background(), sg, pub, stp, signature.WithEnv(penv)); verr != nil {
+						bad = fmt.Sprintf("run %d: what the generated private key signed does not verify with its public half: %v", rep, verr)
+					}
+				}
+				if bad != "" {
+					oracleFail("C18", "own-key-rejected", sx.L(sx.A("step-env-and-pipeline-env"), sx.A(a.String())), bad)
+				} else {
+					stat("C18", "verify-with-envs")
+				}
+			}
+		}
 		// the library's own generator also makes symmetric keys (for tests): every one of them is rejected by
 		// validation; and for any other algorithm it either refuses or gives keys that validation rejects
 		for _, id := range []string{"", "sym", "a b"} {
